@@ -49,3 +49,10 @@ def fill(C, PENDING):
       "Reingold-Dershowitz implementation (every day in thorough), ISO/Gregorian additionally with all 3,652,059 datetime.date ordinals; a "
       "collision-ordered pass (later year first within a cache slot) makes stale year caches visible.",
       "The published algorithms and epochs as coded in vf/models/calendars_ref.py; a shared misconception between code and reference would go unseen.", "§3 C02")
+
+    C("C09", "exploration", "runtime monitoring: day-number/month-sequence models + algebraic law monitors for Period.between",
+      "plus_days/weeks/months/years of the real LocalDate are executed in every calendar at range ends, month ends and seeded dates and compared with the "
+      "day-number line, the calendar's month sequence (built without any addition code) and the documented year rule; Period.between for four value "
+      "types and sampled unit subsets is judged by its stated laws (bracketing, exact end, sign, maximality, requested units); normalize/to_duration "
+      "by the integer total.",
+      "Trusts the C01 day mapping; Hebrew year rule as documented on the calculator; Badi month arithmetic inside Ayyam-i-Ha only checked for validity.", "§3 C09")
